@@ -79,9 +79,18 @@ def rule_IT(FA):
             for bi, fld, val, line, ty in rel:
                 atoms = path_atoms(F, bi)
                 fterm = ('field', SELF, fld)
-                if guard not in atoms and not _guarded_by_get(FA, atoms, cur, bound):
-                    opaque = [a for a in atoms if a[0] in ('is', 'true') and isinstance(a[1], tuple)
-                              and any(isinstance(x, tuple) and x[:1] == ('call',) for x in subterms(a[1]))]
+                # `self.len() > 0` / `self.len() != 0` is the guard itself, spelled through len() = bound - cursor
+                def _is_own_len(t):
+                    t = strip_casts(t)
+                    return isinstance(t, tuple) and ((t[:1] == ('call',) and t[1].split('::')[-1] == 'len' and len(t[2]) == 1 and strip_ref(t[2][0]) == SELF)
+                                                     or norm(t) == norm(lret))
+                by_len = any((a[0] == '<' and a[1] == ('const', 0) and _is_own_len(a[2])) or
+                             (a[0] == '!=' and ((a[1] == ('const', 0) and _is_own_len(a[2])) or (a[2] == ('const', 0) and _is_own_len(a[1]))))
+                             for a in atoms if isinstance(a[2], tuple))
+                if guard not in atoms and not by_len and not _guarded_by_get(FA, atoms, cur, bound):
+                    opaque = [a for a in atoms if isinstance(a[1], tuple)
+                              and any(isinstance(x, tuple) and x[:1] == ('call',) and any(contains(y, SELF) for y in x[2] if isinstance(y, tuple))
+                                      for side in a[1:3] if isinstance(side, tuple) for x in subterms(side))]
                     if opaque:
                         # the write happens only after a call answered Some / true (`let pos = (self.i..self.end).next()?`):
                         # a guard the rule cannot interpret
@@ -231,8 +240,22 @@ def rule_IT(FA):
         backonly = back - front
         if not backonly:
             continue
-        NX = FA.fn(nx)
+        NX = FA.fn(FA.inlined(nx))
         reads = set()
+        # fields read by the methods `next` calls on itself (`self.len()`, `self.is_done()`), one level deep
+        for bi_, t_ in NX.calls():
+            cands_ = list(FA.resolve(t_['f']['fn']))
+            fn_ = t_['f']['fn']
+            if fn_['name'] in ms and (fn_.get('self_ty') or '').split('<')[0].split('::')[-1] == base.split('::')[-1]:
+                cands_.append(ms[fn_['name']])      # a std trait method implemented for the iterator itself (`self.len()`)
+            for cal in cands_:
+                if cal.get('_base') == base and cal['kind'] != 'Closure':
+                    CF = FA.fn(cal)
+                    for b2 in CF.blocks:
+                        for s2 in b2['s']:
+                            for o2 in rv_operands(s2['rv']):
+                                if 'p' in o2 and o2['p']['l'] == 1:
+                                    reads.update(e['f'] for e in o2['p']['proj'] if isinstance(e, dict) and 'f' in e)
         for b in NX.blocks:
             for s_ in b['s']:
                 for o in rv_operands(s_['rv']):
